@@ -56,7 +56,7 @@ RULE = (
     "geometric; PBT; regularised evolution via baselines.REA or FIFOScheduler(searcher=RegularizedEvolution); "
     "MedianStoppingRule(FIFO); RUSHScheduler (stopping / promotion) and BoundingBox(random search) built from mirrored multi-fidelity offline tables (1-3 tasks, crossing curves), plus top_k_hyperparameter_configurations itself; MOASHA with per-metric mode lists, all or a subset of the metrics flipped, scalar / default mode) x constructor arguments x metric table in "
     "general position x 1-8 workers x arrival policy x optional failure plan (synchronous Hyperband also: a burst of failures in the first rung leaving fewer valid results than the next rung has slots) x sparse reporters and scripts ending before max_t with mixed-sign values (MOASHA) x with/without max_resource_attr x "
-    "checkpointing x 0-6 serialisation round trips (dill / deepcopy) of both twins at random points of the history; or one generated reporting history (1-3 metrics, 2-10 trials, random update batches). "
+    "checkpointing x 0-6 serialisation round trips (dill / deepcopy) of both twins at random points of the history; or one generated reporting history (1-3 metrics, 2-10 trials, random update batches; values in general position, or errors clipped at zero / integer-valued {0,1,2} where one trial attains exactly 0.0 or -0.0 as the optimum before its last report). "
     "Distinct = digest of (kind, sequence of suggestion kinds and non-CONTINUE decisions with their levels, how the "
     "pair ended). Non-trivial = the pair was compared to its end without exclusion and contains at least one "
     "rule-based non-CONTINUE decision (below max_t) and at least one resume / warm start where the kind has them "
@@ -155,6 +155,7 @@ def floors(tier):
             out["pairs_with_roundtrip:" + k] = 10 if tier == "quick" else 180
     out["roundtrips"] = 1000 if tier == "quick" else 18000
     out["roundtrips_with_nonempty_rungs"] = 100 if tier == "quick" else 1800
+    out["reporting:optimum_exactly_zero_before_last_report"] = 15 if tier == "quick" else 250
     out["decided:top_k"] = 300 if tier == "quick" else 5000
     out["transfer:top_k_best_and_worst_fidelity_rankings_differ"] = 30 if tier == "quick" else 500
     return out
@@ -332,6 +333,12 @@ def expand(spec):
         p["n_trials"] = rng.randint(2, 10)
         p["max_t"] = rng.randint(1, 6)
         p["curves"] = rng.choice(["continuous", "crossing"])
+        # value arm: general position | errors clipped at zero (max(0, curve - c)) | integer-valued {0, 1, 2};
+        # in the two zero arms one trial attains exactly 0.0 / -0.0 as the optimum at a non-final report
+        p["values"] = rng.choice(["general", "general", "clipped", "clipped", "clipped", "integer"])
+        if p["values"] != "general":
+            p["max_t"] = max(2, p["max_t"])
+        p["zero_seed"] = rng.randint(0, 10**6)
     else:
         raise ValueError(kind)
     if kind != "reporting":
@@ -1325,6 +1332,18 @@ def run_reporting(spec, o):
     n_rep = {i: (0 if rng.random() < 0.1 else rng.randint(1, max_t)) for i in range(n)}
     if all(v == 0 for v in n_rep.values()):
         n_rep[0] = 1
+    arm = p.get("values", "general")
+    zero_plan = {}
+    if arm != "general":
+        zrng = random.Random(p["zero_seed"])
+        cand = [i for i in range(n) if n_rep[i] >= 2]
+        if not cand:
+            n_rep[0] = max(2, n_rep[0])
+            cand = [0]
+        for j in range(k):
+            i0 = zrng.choice(cand)
+            # (trial, level of the exact zero (not its last report), sign of the zero in the first run)
+            zero_plan[j] = (i0, zrng.randint(1, n_rep[i0] - 1), zrng.choice([0.0, -0.0]))
     final = {i: rng.choice([Status.completed, Status.stopped, Status.failed, Status.in_progress, Status.paused]) for i in range(n)}
     emits = []
     nxt = {i: 1 for i in range(n)}
@@ -1344,8 +1363,39 @@ def run_reporting(spec, o):
     started = set()
     pos = 0
 
+    # ---- value arms with exact zeros: h >= 0 with h == 0 the optimum; metric j = h if its mode in the first
+    # run is "min", -h if it is "max" (so the MAXIMISED side of every pair has a running maximum of exactly
+    # 0.0 or -0.0, followed by worse reports of the same trial)
+
+    def val(j, i, level):
+        v = tables[j](i, level)
+        if arm == "general":
+            return v
+        i0, z, zero = zero_plan[j]
+        sgn = 1.0 if modes_a[j] == "min" else -1.0
+        if arm == "integer":
+            h = int(abs(v) * 1000) % 3
+            if i == i0:
+                h = 0 if level == z else max(1, h)
+            elif h == 0 and level == n_rep[i]:
+                h = 1  # other trials may tie at 0, but never as their last word
+            if math.copysign(1.0, zero) < 0:
+                return zero if (i == i0 and level == z) else sgn * float(h)  # integer-valued floats, -0.0 optimum
+            return int(sgn) * h  # Python ints
+        h = max(0.0, abs(v) - 0.35)  # error clipped at zero
+        if i == i0:
+            if level == z:
+                return zero
+            h = h + 0.01  # strictly worse before and after the zero
+        elif h == 0.0:
+            h = 0.001 + abs(v) * 0.01  # the optimum is attained by trial i0 only
+        return sgn * h
+
     def res(i, level, fl):
-        r = {m: (-1.0 if j in fl else 1.0) * tables[j](i, level) for j, m in enumerate(names)}
+        r = {}
+        for j, m in enumerate(names):
+            v = val(j, i, level)
+            r[m] = (-v if j in fl else v) if isinstance(v, int) else (-1.0 if j in fl else 1.0) * v
         r["epoch"] = level
         r["st_worker_time"] = 1.5 * level
         return r
@@ -1369,7 +1419,7 @@ def run_reporting(spec, o):
             sb.update(trial_status_dict=dict(status), new_results=[(i, res(i, lv, fl)) for i, lv in batch])
         for i, lv in batch:
             row = {"trial_id": i, "epoch": lv}
-            row.update({m: tables[j](i, lv) for j, m in enumerate(names)})
+            row.update({m: val(j, i, lv) for j, m in enumerate(names)})
             row.update({"config_" + kk: vv for kk, vv in trials[i].config.items()})
             row.update({"st_tuner_time": float(len(rows)), "st_decision": "CONTINUE", "st_status": "in_progress"})
             rows.append(row)
@@ -1378,6 +1428,15 @@ def run_reporting(spec, o):
             for s in all_status():
                 s.update(trial_status_dict={i: (trials[i], Status.in_progress)}, new_results=[])
     o.count("pairs:reporting")
+    o.count("reporting:values:" + arm)
+    for j, (i0, z, zero) in zero_plan.items():
+        # by construction: the optimum of metric j is exactly 0.0 / -0.0, attained by trial i0 at report z and
+        # followed by worse reports of the same trial (re-checked on the emitted values)
+        vals = [val(j, i0, lv) for lv in range(1, n_rep[i0] + 1)]
+        sgn_ = 1.0 if modes_a[j] == "min" else -1.0
+        if vals[z - 1] == 0 and all(sgn_ * v > 0 for v in vals[z:]) and len(vals) > z:
+            o.count("reporting:optimum_exactly_zero_before_last_report")
+            o.count("reporting:optimum_exactly_zero_before_last_report:" + ("negative_zero" if math.copysign(1.0, float(zero)) < 0 else "positive_zero"))
     viol0 = len(o.violations)
     sb = sbs[flips[0]]
     # (a) the statistics TuningStatus keeps are mirror images
